@@ -143,6 +143,8 @@ _garbage = [object() for _ in range(n)] + [[i] for i in range(n // 3)]
 del _garbage[::2]
 import vlib
 from vlib import gload
+import guppylang_internals.experimental as ex
+ex.enable_experimental_features()
 progs = json.load(open(sys.argv[1]))
 out = {}
 for name, (names, src) in progs.items():
